@@ -197,7 +197,7 @@ theorem undelegate_effect {c c' : Chain} {a : Addr} {v : String} {coin : Coin}
     stakeOf c'.st a v = Dec.sub (stakeOf c.st a v) (Dec.ofNat coin.amount) ∧
     (∀ d2 w, (d2, w) ≠ (a, v) → stakeOf c'.st d2 w = stakeOf c.st d2 w) ∧
     (∀ k : Addr × String, k.2 ≠ v → get? c'.st.stakes k = get? c.st.stakes k) ∧
-    c'.st.queue = c.st.queue ++ [⟨a, v, coin.amount, c.time + c.st.info.unbondingTime⟩] ∧
+    c'.st.queue = c.st.queue ++ [⟨a, v, coin.amount, c.time + NS * c.st.info.unbondingTime⟩] ∧
     c'.bank = c.bank ∧ c'.st.withdraw = c.st.withdraw ∧ c'.st.info = c.st.info ∧ c'.time = c.time := by
   unfold undelegate at h
   split at h
